@@ -335,3 +335,11 @@ def representation_private(ctx):
 def witness_private(ctx):
     from .. import witness
     witness.check(ctx, ['UserKeyRepresentationIsPrivate', 'MasterKeyRepresentationIsPrivate'])
+
+
+@rule('C08', 'rejection-leaves-keys-untouched', configs=('default', 'p256'))
+def rejection_leaves_keys_untouched(ctx):
+    """'... refuses it with an error and modifies nothing': in refresh no write to the user key or the master key can be
+    followed by an error exit (C10.atomic restricted to refresh and what it calls on the tracing key)."""
+    from . import c10
+    c10.atomic(ctx, only=r'primitives::refresh$|TracingSecretKey::refresh_id$|primitives::usk_keygen$|api::Covercrypt::refresh_usk$')
